@@ -36,6 +36,106 @@ def prop(d):
     return d
 
 
+# ---- case source "corpus": the byte strings found in the repository's own tests (harness corpus) ----
+CORPUS_RULE = ("; the byte strings found in the repository's own _test.go files ([]byte literals of constants, from the current "
+               "working tree) are added as cases of class *_corpus")
+
+
+def corpus_decode(fam):
+    def f(entries, tier):
+        out = []
+        prev = []
+        for e in entries:
+            out.append(dict(fam=fam, kind="bytes", bytes=e["bytes"], prev=prev, **{"class": "corpus_bytes"}))
+            prev = e["bytes"][:300]
+        return out
+    return f
+
+
+def _codec_of(path):
+    for k in ("h264", "h265", "vp8", "vp9", "av1", "opus", "g711", "g722"):
+        if k in path:
+            return k
+    return ""
+
+
+def corpus_c09(entries, tier):
+    out = []
+    small = [e for e in entries if len(e["bytes"]) <= 2100]
+    for kind in C09_KINDS:
+        base = kind.split("_")[0]
+        # every string alone into a fresh receiver; the strings of the codec's own test files also as histories in source order
+        for e in small:
+            if tier == "quick" and _codec_of(e["file"]) not in (base, ""):
+                continue
+            out.append(dict(fam="C09", kind=kind, src="bytes", items=[e["bytes"]], probes=True, scribble=True, **{"class": kind + "_corpus"}))
+        own = [e["bytes"] for e in small if _codec_of(e["file"]) == base]
+        for i in range(0, len(own), 6):
+            out.append(dict(fam="C09", kind=kind, src="bytes", items=own[i:i + 8], probes=True, scribble=True, **{"class": kind + "_corpus_history"}))
+    return out
+
+
+def _split_annexb(b):
+    """(units, start-code sizes) of an Annex-B stream that begins with a start code, else None."""
+    pos = []
+    i = 0
+    while i + 2 < len(b):
+        if b[i] == 0 and b[i + 1] == 0 and b[i + 2] == 1:
+            pos.append((i - 1, 4) if i > 0 and b[i - 1] == 0 and (not pos or pos[-1][0] + pos[-1][1] <= i - 1) else (i, 3))
+            i += 3
+        else:
+            i += 1
+    if not pos or pos[0][0] != 0:
+        return None
+    units, scs = [], []
+    for k, (st, n) in enumerate(pos):
+        end = pos[k + 1][0] if k + 1 < len(pos) else len(b)
+        units.append(b[st + n:end]); scs.append(n)
+    return units, scs
+
+
+def corpus_nal(fam, codec):
+    def f(entries, tier):
+        out = []
+        for e in entries:
+            if _codec_of(e["file"]) != codec:
+                continue
+            r = _split_annexb(e["bytes"])
+            if not r:
+                continue
+            units, scs = r
+            if codec == "h264":
+                ok = all(len(u) >= 2 and u[-1] != 0 and u[0] < 128 and 1 <= (u[0] & 31) <= 23 for u in units)
+            else:
+                ok = all(len(u) >= 3 and u[-1] != 0 and u[0] < 128 and ((u[0] >> 1) & 63) <= 47 for u in units)
+            if not ok:
+                continue
+            big = max(len(u) for u in units)
+            for mtu in sorted({1200, max(6, big // 2), max(6, big + 1), 6}):
+                if codec == "h264":
+                    for stap in (True, False):
+                        out.append(dict(fam=fam, kind="payloader", mtu=mtu, stapa=stap, calls=[dict(units=units, scs=scs)], **{"class": "corpus_stream"}))
+                else:
+                    for donl in (False, True):
+                        out.append(dict(fam=fam, kind="payload", valid=True, mtu=mtu, donl=donl, skipagg=False, calls=[dict(units=units, scs=scs)], **{"class": "corpus_stream"}))
+        return out
+    return f
+
+
+def corpus_c08(entries, tier):
+    out = []
+    small = [e for e in entries if 0 < len(e["bytes"]) <= 2100]
+    for kind in C08_KINDS:
+        base = kind.split("_")[0].replace("vp8pid", "vp8")
+        for e in small:
+            if _codec_of(e["file"]) not in (base, "") and tier == "quick":
+                continue
+            n = len(e["bytes"])
+            calls = [dict(mtu=m, shape="raw", len=n, salt=0, bytes=e["bytes"]) for m in (1200, max(2, n // 2 + 1), 5)]
+            out.append(dict(fam="C08", kind=kind, scribble=True, calls=calls, **{"class": kind + "_corpus"}))
+    return out
+
+
 COMMON_ASSUME = [
     "TLC (tla2tools 1.8.0) and the CommunityModules Json/IOUtils overrides are trusted",
     "the Go harness only projects real behaviour to trace events (no verdict logic); its projection code is trusted",
@@ -309,7 +409,7 @@ prop(dict(
     mc=[("RtpMC.tla", "RtpMC.cfg", {"quick": {"KnobSet": '"some"', "PayLens": "{0, 5}", "PadSizes": "{0, 3}", "CsrcCounts": "{0, 2}"},
                                      "thorough": dict(RTP_THOROUGH, KnobSet='"some"')})],
     gen=[("RtpDecGen.tla", "RtpDecGen.cfg", {"thorough": C02_CONST_T})],
-    rand=rand_c02,
+    rand=rand_c02, corpus=corpus_decode("C02"),
     trace=("RtpTrace.tla", "RtpTraceC02.cfg"),
     shards={"quick": 4, "thorough": 14},
     workers=16,
@@ -328,7 +428,7 @@ prop(dict(
     mc=[("RtpMC.tla", "RtpMC.cfg", {"quick": {"KnobSet": '"some"', "PadSizes": "{0, 1, 7}"},
                                      "thorough": dict(RTP_THOROUGH, KnobSet='"all"', PayLens="{0, 1, 5}", PadSizes="{0, 1, 7, 255}", CsrcCounts="{0, 1, 15}")})],
     gen=[("RtpDecGen.tla", "RtpDecGenC03.cfg", {"thorough": C03_CONST_T})],
-    rand=rand_c03,
+    rand=rand_c03, corpus=corpus_decode("C03"),
     trace=("RtpTrace.tla", "RtpTraceC03.cfg"),
     shards={"quick": 4, "thorough": 14},
     workers=16,
@@ -661,7 +761,7 @@ prop(dict(
     id="C08", fam="C08",
     mc=[("PayloaderMC.tla", "PayloaderMC.cfg", {"thorough": {"MaxCalls": "4"}}), ("PayloaderMC.tla", "PayloaderMCAlias.cfg", {}, "expect_violation")],
     gen=[("PayloaderGen.tla", "PayloaderGen.cfg", {"thorough": {"Stride": "1", "Lens": "{1, 2, 3, 4, 5, 9, 17, 40, 41, 100, 300, 1300, 20000}"}})],
-    rand=rand_c08,
+    rand=rand_c08, corpus=corpus_c08,
     trace=("PayloaderTrace.tla", "PayloaderTrace.cfg"),
     shards={"quick": 2, "thorough": 14},
     workers=16,
@@ -703,7 +803,7 @@ prop(dict(
     mc=[("PayloaderMC.tla", "PayloaderMC.cfg", {"thorough": {"MaxCalls": "4"}}), ("PayloaderMC.tla", "PayloaderMCAlias.cfg", {}, "expect_violation")],
     gen=[("DepacketizerGen.tla", "DepacketizerGen.cfg", {"thorough": {"Stride": "1", "Sweep": "TRUE", "All2": "TRUE",
                                                                         "Alpha3": "{0, 1, 2, 24, 28, 29, 48, 49, 50, 64, 96, 98, 100, 127, 128, 129, 144, 156, 192, 224, 240, 248, 254, 255}"}})],
-    rand=rand_c09,
+    rand=rand_c09, corpus=corpus_c09,
     trace=("DepacketizerTrace.tla", "DepacketizerTrace.cfg"),
     shards={"quick": 6, "thorough": 14},
     workers=16,
@@ -831,7 +931,7 @@ prop(dict(
     id="C10", fam="C10",
     mc=[("H264MC.tla", "H264MC.cfg", {"thorough": {"Sizes": "{2, 3, 5, 6, 7, 8, 9, 12, 13, 14, 21}"}}), ("H264MC.tla", "H264MCNoResync.cfg", {}, "expect_violation")],
     gen=[("H264Gen.tla", "H264Gen.cfg", {"thorough": {"Rich": "TRUE", "Mtus": "{3, 4, 5, 6, 7, 8, 16, 40, 100, 1200}"}})],
-    rand=rand_c10,
+    rand=rand_c10, corpus=corpus_nal("C10", "h264"),
     trace=("H264Trace.tla", "H264Trace.cfg"),
     shards={"quick": 2, "thorough": 12},
     workers=16,
@@ -943,7 +1043,7 @@ prop(dict(
     id="C14", fam="C14",
     mc=[("H265MC.tla", "H265MC.cfg", {"thorough": {"Sizes": "{3, 4, 5, 6, 8, 9, 12, 17}"}})],
     gen=[("H265Gen.tla", "H265Gen.cfg", {"thorough": {"Stride16": "1", "Mtus": "{4, 5, 6, 7, 8, 9, 10, 11, 12, 13, 16, 20, 100, 1200}"}})],
-    rand=rand_c14,
+    rand=rand_c14, corpus=corpus_nal("C14", "h265"),
     trace=("H265Trace.tla", "H265Trace.cfg"),
     shards={"quick": 2, "thorough": 12},
     workers=16,
@@ -1038,3 +1138,7 @@ prop(dict(
          "judged against the ordered-map machine of RtpHeaderExt plus re-serialisation (Marshal must be a well-formed block whose reference walk returns the map)",
     assumptions=COMMON_ASSUME + ["not one of the listed properties: findings are reported in DESIGN.md 9.7, never as a listed property's violation"],
 ))
+
+
+for _id in ("C02", "C03", "C08", "C09", "C10", "C14"):
+    PROPS[_id]["rule"] += CORPUS_RULE
